@@ -81,11 +81,15 @@ struct St {
     retry_yields: u32,
     events: Vec<(u32, usize, u16)>,
     trace_events: bool,
+    max_map_len: usize,
 }
 
 struct Shared {
     m: Mutex<St>,
     cv: Condvar,
+    /// number of entries physically in the map (C04 overshoot clause); safe to call
+    /// at switch points because no paused thread holds a shard lock there
+    probe: Option<Box<dyn Fn() -> usize + Send + Sync>>,
 }
 
 impl Shared {
@@ -158,6 +162,14 @@ impl Shared {
         let step = st.step;
         if st.trace_events {
             st.events.push((step, me, s));
+        }
+        if s == OP_START || s == site::WRITE_RETRY || s == site::WRITE_BEFORE_SEND {
+            if let Some(p) = &self.probe {
+                let n = p();
+                if n > st.max_map_len {
+                    st.max_map_len = n;
+                }
+            }
         }
         if step > STEP_BUDGET {
             self.abort(st, "C09", format!("step budget of {STEP_BUDGET} switch points exceeded: some operation does not make progress (livelock)"));
@@ -285,6 +297,7 @@ pub struct SchedStats {
     pub retry_yields: u32,
     pub write_queue_filled: bool,
     pub refill_checked: bool,
+    pub max_map_len: usize,
     pub had_invalidation: bool,
     pub get_hits: u32,
 }
@@ -378,6 +391,12 @@ pub fn run_sched_case(case: &SchedCase, prop: &str, trace: bool) -> SchedRun {
             ..St::default()
         }),
         cv: Condvar::new(),
+        probe: if prop == "C04" {
+            let c = cache.clone();
+            Some(Box::new(move || c.verif_map_len()))
+        } else {
+            None
+        },
     });
 
     let mut handles = Vec::new();
@@ -441,6 +460,7 @@ pub fn run_sched_case(case: &SchedCase, prop: &str, trace: bool) -> SchedRun {
         stats.forced_switches = st.forced_switches;
         stats.retry_yields = st.retry_yields;
         stats.write_queue_filled = st.retry_yields > 0;
+        stats.max_map_len = st.max_map_len;
         (st.abort.clone(), st.events.clone())
     };
     let unused_preemption = case.preempt.iter().any(|p| p.0 > stats.steps);
@@ -596,6 +616,12 @@ pub fn run_sched_case(case: &SchedCase, prop: &str, trace: bool) -> SchedRun {
         }
     }
     if prop == "C04" {
+        if let (Some(c), WeigherKind::None) = (case.cfg.cap, case.cfg.weigher) {
+            let bound = c as usize + 384 + case.threads.len();
+            if stats.max_map_len > bound {
+                mkret!(Violation { prop: "C04", step: stats.steps as usize, msg: format!("between maintenance runs the cache held {} entries: more than max_capacity {c} + the write queue (384) + one per inserting thread ({}) = {bound}", stats.max_map_len, case.threads.len()) });
+            }
+        }
         if let Some(c) = case.cfg.cap {
             if phys_w > c {
                 mkret!(Violation { prop: "C04", step: stats.steps as usize, msg: format!("after the schedule and sync() the resident weight {phys_w} exceeds max_capacity {c}") });
@@ -625,6 +651,32 @@ pub fn run_sched_case(case: &SchedCase, prop: &str, trace: bool) -> SchedRun {
                     mkret!(Violation { prop: "C02", step: stats.steps as usize, msg: format!("after all threads stopped the cache holds v{} for k{} (insert [{}..{}]) although the later {} [{}..{}] had completed", e.seq, e.k, w.start, w.end, w2.seq.map(|s| format!("insert v{s}")).unwrap_or_else(|| "invalidate".into()), w2.start, w2.end) });
                 }
             }
+        }
+    }
+
+    // ---- C03: nothing is lost below capacity (unbounded configurations) -----------
+    if prop == "C03" && case.cfg.cap.is_none() {
+        let now_clock = clock_ns.load(Ordering::SeqCst);
+        for (k, ws) in &writes {
+            // the unique last write, if there is one that no other write overlaps or follows
+            let maximal: Vec<&W> = ws.iter().filter(|w| !ws.iter().any(|w2| !std::ptr::eq(*w, w2) && w2.end > w.start && !(w2.end < w.start))).collect();
+            let last = ws.iter().filter(|w| ws.iter().all(|w2| std::ptr::eq(*w, w2) || w2.end < w.start)).next();
+            let _ = maximal;
+            let Some(w) = last else { continue };
+            let Some(seq) = w.seq else { continue };
+            // not hidden by an invalidate_all that may have come after it, not expired
+            if inval_all.iter().any(|ia| ia.end > w.start) {
+                continue;
+            }
+            let age = now_clock - w.clock_start;
+            let min_d = [case.cfg.ttl, case.cfg.tti].into_iter().flatten().min();
+            if min_d.map_or(false, |d| age >= d) {
+                continue;
+            }
+            if !snap.entries.iter().any(|e| e.k == *k && e.seq == seq) {
+                mkret!(Violation { prop: "C03", step: stats.steps as usize, msg: format!("no max_capacity is configured and insert(k{k}, v{seq}) [{}..{}] was the last write of that key (every other write of it had completed before it began), it is neither expired (age {} of {:?}) nor invalidated, yet after quiescence the cache holds {:?} for that key", w.start, w.end, fmt_ns(age), min_d, snap.entries.iter().find(|e| e.k == *k).map(|e| e.seq)) });
+            }
+            stats.refill_checked = true;
         }
     }
 
@@ -692,7 +744,7 @@ fn top(nkeys: u32, fill: bool) -> BoxedStrategy<TOp> {
 }
 
 pub fn sched_strategy(prop: &str, thorough: bool) -> BoxedStrategy<SchedCase> {
-    let fill = prop == "C09";
+    let fill = prop == "C09" || prop == "C04";
     let max_pre = if thorough { 8usize } else { 4 };
     (1u32..4, 2usize..5, any::<u8>(), any::<u8>(), any::<u8>(), any::<u8>(), any::<u8>())
         .prop_flat_map(move |(nkeys, nthreads, capsel, wsel, ttlsel, ttisel, first)| {
@@ -736,6 +788,12 @@ fn litmus() -> Vec<(&'static str, SchedCase)> {
         ("insert || invalidate || get", SchedCase { cfg: base(None, None), init: vec![ins(0, 1)], threads: vec![vec![ins(0, 1)], vec![TOp::Invalidate { k: 0 }], vec![get(0)]], preempt: vec![], first: 0 }),
         ("insert || sync", SchedCase { cfg: base(Some(2), None), init: vec![ins(1, 1)], threads: vec![vec![ins(0, 1), ins(0, 2)], vec![TOp::Sync]], preempt: vec![], first: 0 }),
         ("update || sync || get", SchedCase { cfg: base(Some(3), None), init: vec![ins(0, 1)], threads: vec![vec![ins(0, 3)], vec![TOp::Sync], vec![get(0)]], preempt: vec![], first: 0 }),
+        ("insert; advance; sync || invalidate_all; get", SchedCase { cfg: base(None, None), init: vec![], threads: vec![vec![ins(0, 1), TOp::Advance { ns: 1 }, TOp::Sync], vec![TOp::InvalidateAll, get(0), get(0)]], preempt: vec![], first: 0 }),
+        ("get; advance || invalidate_all; sync; get", SchedCase { cfg: base(None, None), init: vec![ins(0, 1), TOp::Sync, TOp::Advance { ns: 1 }], threads: vec![vec![get(0), TOp::Advance { ns: 1 }], vec![TOp::InvalidateAll, TOp::Sync, get(0), get(0)]], preempt: vec![], first: 0 }),
+        ("sync || invalidate; insert; get (old value at its ttl)", SchedCase { cfg: base(None, Some(SEC)), init: vec![ins(0, 1), TOp::Sync, TOp::Advance { ns: SEC }], threads: vec![vec![TOp::Sync], vec![TOp::Invalidate { k: 0 }, ins(0, 1), get(0)]], preempt: vec![], first: 0 }),
+        ("sync || update; get (old value at its ttl)", SchedCase { cfg: base(Some(2), Some(SEC)), init: vec![ins(0, 1), ins(1, 1), TOp::Sync, TOp::Advance { ns: SEC }], threads: vec![vec![TOp::Sync], vec![ins(0, 1), get(0)]], preempt: vec![], first: 0 }),
+        ("insert; insert || sync; sync (capacity 1)", SchedCase { cfg: base(Some(1), None), init: vec![], threads: vec![vec![ins(0, 1), ins(1, 1), get(1)], vec![TOp::Sync, TOp::Sync]], preempt: vec![], first: 0 }),
+        ("update; invalidate || sync || get", SchedCase { cfg: base(Some(2), None), init: vec![ins(0, 1), TOp::Sync], threads: vec![vec![ins(0, 2), TOp::Invalidate { k: 0 }], vec![TOp::Sync], vec![get(0)]], preempt: vec![], first: 0 }),
         ("invalidate_all || invalidate_all (clock advancing)", SchedCase { cfg: base(None, None), init: vec![ins(0, 1), TOp::Advance { ns: 1 }], threads: vec![vec![TOp::InvalidateAll], vec![TOp::Advance { ns: 1 }, ins(1, 1), TOp::Advance { ns: 1 }, TOp::InvalidateAll, get(1)]], preempt: vec![], first: 0 }),
     ]
 }
@@ -848,6 +906,7 @@ pub fn sched_worker(a: &WorkerArgs) -> WorkerResult {
                 cl("cases_with_full_write_queue", st.write_queue_filled);
                 cl("cases_with_get_hit", st.get_hits > 0);
                 cl("cases_with_refill_checked", st.refill_checked);
+                cl("cases_with_more_than_64_entries_pending", st.max_map_len > 64 + case.cfg.cap.unwrap_or(0) as usize);
                 cl(&format!("threads_{}", case.threads.len()), true);
                 if nontrivial(&prop, st) && r.violation.as_ref().map_or(true, |v| v.prop != prop) && acc.hashes.insert(case.hash64()) && acc.samples.len() < 2 {
                     acc.samples.push(case.clone());
